@@ -22,10 +22,14 @@ var routeHooks vp.HookCounts
 // socket directory under another path (address translation) and the
 // connection may use AutoMTLS.
 func runRouteProc(t *testing.T, c spec.Case, e Em, p spec.RouteCase) {
+	wire := "grpc"
+	if p.Kind == "mux" {
+		wire = "netrpc"
+	}
 	cfg := baseClientConfig()
 	cfg.AutoMTLS = p.TLS == "auto"
-	hostSetFor(cfg, "grpc")
-	l := prepare(c.ID, "", pluginCfgFor("grpc"), cfg, p.Proc)
+	hostSetFor(cfg, wire)
+	l := prepare(c.ID, "", pluginCfgFor(wire), cfg, p.Proc)
 	defer l.hardKill()
 	cp, err := l.Client.Client()
 	if err != nil {
@@ -35,6 +39,10 @@ func runRouteProc(t *testing.T, c spec.Case, e Em, p spec.RouteCase) {
 	raw, err := cp.Dispense("kv")
 	if err != nil {
 		e.Note("pair-error", err.Error())
+		return
+	}
+	if p.Kind == "mux" {
+		runRouteProcMux(c, e, p, l, cp, raw.(*vp.RPCCli))
 		return
 	}
 	cli := raw.(*vp.GRPCCli)
@@ -369,4 +377,105 @@ func TestC07(t *testing.T) {
 }
 func TestC08(t *testing.T) {
 	routeTest(t, 8, "grpcbroker.accept.mux.registering", "grpcmux.server.accepted", "grpcmux.client.unblocked", "grpcbroker.knock.sent", "grpcbroker.run.recv")
+}
+
+// runRouteProcMux: MuxBroker pairs between the host and a real net/rpc plugin
+// process; the plugin performs its half of each exchange on request.
+func runRouteProcMux(c spec.Case, e Em, p spec.RouteCase, l *launched, cp plugin.ClientProtocol, cli *vp.RPCCli) {
+	var inflight, maxPend atomic.Int32
+	item := func(idx int, it spec.RouteItem) {
+		id := it.ID
+		n := inflight.Add(1)
+		for {
+			m := maxPend.Load()
+			if n <= m || maxPend.CompareAndSwap(m, n) {
+				break
+			}
+		}
+		defer inflight.Add(-1)
+		nonceA, nonceD := vp.RandID(), vp.RandID()
+		gap := time.Duration(it.GapMs) * time.Millisecond
+		fill := func(o *spec.RouteObs, m vp.M, err error) {
+			if err != nil {
+				o.Err = err.Error()
+				return
+			}
+			o.PeerID, o.PeerNonce, o.PayloadOK, o.Extra = uint32(vp.Int(m, "peerId")), vp.Str(m, "peerNonce"), vp.Bool(m, "payloadOk"), vp.Int(m, "extra")
+		}
+		var wg sync.WaitGroup
+		accept := func() {
+			defer wg.Done()
+			o := spec.RouteObs{ID: id, Idx: idx, Role: "accept", Side: other(it.Dir), Nonce: nonceA}
+			e.Call(fmt.Sprintf("a%d", idx), "accept", o)
+			if it.Dir == "host" { // the plugin accepts
+				m, err := cli.Do("mux-accept", "id", id, "nonce", nonceA, "len", it.Len)
+				fill(&o, m, err)
+			} else {
+				x, err := vp.MuxAccept(cli.Broker, id, nonceA, it.Len)
+				o.PeerID, o.PeerNonce, o.PayloadOK, o.Extra, o.Err = x.PeerID, x.PeerNonce, x.PayloadOK, x.Extra, errStr(err)
+			}
+			e.Ret(fmt.Sprintf("a%d", idx), "accept", o)
+		}
+		dial := func() {
+			defer wg.Done()
+			o := spec.RouteObs{ID: id, Idx: idx, Role: "dial", Side: it.Dir, Nonce: nonceD}
+			e.Call(fmt.Sprintf("d%d", idx), "dial", o)
+			if it.Dir == "host" {
+				x, err := vp.MuxDial(cli.Broker, id, nonceD, it.Len)
+				o.PeerID, o.PeerNonce, o.PayloadOK, o.Extra, o.Err = x.PeerID, x.PeerNonce, x.PayloadOK, x.Extra, errStr(err)
+			} else {
+				m, err := cli.Do("mux-dial", "id", id, "nonce", nonceD, "len", it.Len)
+				fill(&o, m, err)
+			}
+			e.Ret(fmt.Sprintf("d%d", idx), "dial", o)
+		}
+		wg.Add(2)
+		if it.AcceptFirst {
+			go accept()
+			time.Sleep(gap)
+			go dial()
+		} else {
+			go dial()
+			time.Sleep(gap)
+			go accept()
+		}
+		wg.Wait()
+	}
+	var end spec.RouteEnd
+	ok, _, dump := within(150*time.Second, func() {
+		var wg sync.WaitGroup
+		for g := 0; g < p.DispG; g++ {
+			wg.Add(1)
+			go func(g int) {
+				defer wg.Done()
+				for k := 0; k < 4; k++ {
+					o := spec.DispObs{G: g, Want: "kv"}
+					raw, err := cp.Dispense("kv")
+					if err != nil {
+						o.Err = err.Error()
+					} else if m, err := raw.(vp.Cli).Do("tag"); err != nil {
+						o.Err = err.Error()
+					} else {
+						o.Name, o.Serial = vp.Str(m, "name"), int64(vp.Int(m, "serial"))
+					}
+					e.Obs("dispense", o)
+				}
+			}(g)
+		}
+		for i, it := range p.Items {
+			wg.Add(1)
+			go func(i int, it spec.RouteItem) { defer wg.Done(); item(i, it) }(i, it)
+		}
+		wg.Wait()
+		var h spec.RouteHealth
+		h.Idx, h.RepingOK = len(p.Items), true
+		h.PingErr = errStr(cp.Ping())
+		_, err := cli.Do("tag")
+		h.CallErr = errStr(err)
+		e.Obs("health", h)
+	})
+	end.Returned, end.Dump, end.MaxPend = ok, trunc(dump, 6000), int(maxPend.Load())
+	end.Hooks = routeHooks.Snapshot()
+	within(30*time.Second, l.Client.Kill)
+	e.Obs("end", end)
 }
